@@ -24,7 +24,13 @@ EXTENDS Integers, Sequences, FiniteSets, TLC
 
 CONSTANTS MaxLevel,     \* slice levels 0..MaxLevel
           FromBases,    \* subset of {"int", "string"}: element type of the source of From
-          FromLevels    \* set of slice levels the source type of From may have
+          FromLevels,   \* set of slice levels the source type of From may have
+          Alphabet,     \* "full": every transformer codomain of JT;  "skeleton": one Join (other base, same level),
+                        \*   one LiftF (f: B -> []B, the codomain type stays), WrapF, Unit, Yield - the nesting skeletons
+          MaxLand,      \* at most this many Join/Yield steps in a program                          (99 = no bound)
+          MidLand,      \* LiftF/WrapF/Unit only while at most this many Join/Yield steps were made (99 = no bound);
+                        \*   0: programs are a nesting word followed by <= MaxLand trailing Join/Yield probes
+          MaxDepth      \* at most this many nested contexts open at a time                         (99 = no bound)
 
 (* ------------------------------------------------------------------------------------------ types *)
 Real == {"int", "string"}
@@ -78,27 +84,39 @@ P_Tree(p, id) == LET i == p.info[id] IN
    ch |-> IF id \in DOMAIN p.kids THEN [j \in 1..Len(p.kids[id]) |-> P_Tree(p, p.kids[id][j])] ELSE <<>>]
 
 (* ------------------------------------------------------------------------------------------ programs *)
-\* build state s = [ast (I), pt (P), ty (codomain type), n (steps so far)]
+\* build state s = [ast (I), pt (P), ty (codomain type), n (steps so far), nl (Join/Yield steps so far)]
 Start(t) == [ast |-> App(SeqN("root", 0), Node("from", 2, t, t))[2],
-             pt  |-> P_Land(P_Init, 2, "from", t, t), ty |-> t, n |-> 1]
+             pt  |-> P_Land(P_Init, 2, "from", t, t), ty |-> t, n |-> 1, nl |-> 0]
 StepFrom(t) == [op |-> "from", b |-> t, c |-> t]
+\* codomains offered to Join / LiftF transformers in the chosen alphabet
+JoinTo(t) == IF Alphabet = "full" THEN JT(t) ELSE {T(Flip(t.b), t.l)}
+LiftTo(e) == IF Alphabet = "full" THEN JT(e) ELSE {T(e.b, e.l + 1)}
 \* the steps Go's type checker admits on a morphism with codomain s.ty
-Steps(s) ==
-  {[op |-> "join", b |-> s.ty, c |-> c] : c \in JT(s.ty)}
-  \cup (IF s.ty.l >= 1 THEN {[op |-> "liftf", b |-> Elem(s.ty), c |-> c] : c \in JT(Elem(s.ty))}
+TypedSteps(s) ==
+  {[op |-> "join", b |-> s.ty, c |-> c] : c \in JoinTo(s.ty)}
+  \cup (IF s.ty.l >= 1 THEN {[op |-> "liftf", b |-> Elem(s.ty), c |-> c] : c \in LiftTo(Elem(s.ty))}
                             \cup {[op |-> "wrapf", b |-> Elem(s.ty), c |-> Elem(s.ty)]} ELSE {})
   \cup (IF s.ty.l < MaxLevel THEN {[op |-> "unit", b |-> s.ty, c |-> T(s.ty.b, s.ty.l + 1)]} ELSE {})
   \cup {[op |-> "yield", b |-> s.ty, c |-> Void]}
-Do(s, st) == LET id == 2 * (s.n + 1) IN
-  CASE st.op = "join"  -> [ast |-> App(s.ast, Node("map", id, st.b, st.c))[2],
-                           pt |-> P_Land(s.pt, id, "map", st.b, st.c), ty |-> st.c, n |-> s.n + 1]
-    [] st.op = "liftf" -> [ast |-> App(s.ast, App(SeqN("seq", id), Node("map", id + 1, st.b, st.c))[2])[2],
-                           pt |-> P_Land(P_Open(s.pt, id), id + 1, "map", st.b, st.c), ty |-> st.c, n |-> s.n + 1]
-    [] st.op = "wrapf" -> [ast |-> App(s.ast, SeqN("seq", id))[2],
-                           pt |-> P_Open(s.pt, id), ty |-> st.c, n |-> s.n + 1]
-    [] st.op = "unit"  -> [ast |-> Uni(s.ast)[2], pt |-> P_Close(s.pt), ty |-> st.c, n |-> s.n + 1]
-    [] st.op = "yield" -> [ast |-> App(s.ast, Node("yield", id, st.b, st.b))[2],
-                           pt |-> P_Land(s.pt, id, "yield", st.b, st.b), ty |-> st.c, n |-> s.n + 1]
+IsLand(st) == st.op \in {"join", "yield"}
+IsOpen(st) == st.op \in {"liftf", "wrapf"}
+\* ... of which the family under exploration keeps
+\* (in the skeleton alphabet Unit is used only to close a nested context: Unit with nothing open is in the full family)
+Steps(s) == {st \in TypedSteps(s) : /\ IsLand(st) => s.nl < MaxLand
+                                    /\ ~IsLand(st) => s.nl <= MidLand
+                                    /\ IsOpen(st) => Len(s.pt.stack) - 1 < MaxDepth
+                                    /\ Alphabet = "skeleton" /\ st.op = "unit" => Len(s.pt.stack) > 1}
+Do(s, st) ==
+  LET id == 2 * (s.n + 1)
+      t  == CASE st.op = "join"  -> [ast |-> App(s.ast, Node("map", id, st.b, st.c))[2],
+                                     pt  |-> P_Land(s.pt, id, "map", st.b, st.c)]
+               [] st.op = "liftf" -> [ast |-> App(s.ast, App(SeqN("seq", id), Node("map", id + 1, st.b, st.c))[2])[2],
+                                     pt  |-> P_Land(P_Open(s.pt, id), id + 1, "map", st.b, st.c)]
+               [] st.op = "wrapf" -> [ast |-> App(s.ast, SeqN("seq", id))[2], pt |-> P_Open(s.pt, id)]
+               [] st.op = "unit"  -> [ast |-> Uni(s.ast)[2], pt |-> P_Close(s.pt)]
+               [] st.op = "yield" -> [ast |-> App(s.ast, Node("yield", id, st.b, st.b))[2],
+                                     pt  |-> P_Land(s.pt, id, "yield", st.b, st.b)]
+  IN [ast |-> t.ast, pt |-> t.pt, ty |-> st.c, n |-> s.n + 1, nl |-> s.nl + (IF IsLand(st) THEN 1 ELSE 0)]
 
 \* the I tree is the tree the stack discipline prescribes (including which contexts are still open)
 Agree(s) == s.ast = P_Tree(s.pt, 0)
